@@ -27,7 +27,7 @@
 
 ;; block srem
 ; signed 64-bit remainder by a non-constant divisor as an uninterpreted function;
-; every use site asserts 0 <= a, 0 < b ==> 0 <= r < b, which bvsrem satisfies
+; every use site asserts 0 <= a, 0 < b ==> 0 <= r < b and (a < b ==> r = a), which bvsrem satisfies
 ; (sound abstraction; functions under contract opt in with `abstract_rem int`).
 (declare-fun srem64 ((_ BitVec 64) (_ BitVec 64)) (_ BitVec 64))
 
@@ -39,6 +39,9 @@
 ; sig tier_max(any) uint
 (declare-fun sel_info (Iface) Int)
 (declare-fun tier_max (Iface) (_ BitVec 64))
+;  tok_less(a,b)  the ordering of ring tokens (token.Less of the partitioner's token type)
+; sig tok_less(any, any) bool
+(declare-fun tok_less (Iface Iface) Bool)
 
 ;; block mm3
 ; Cassandra org.apache.cassandra.utils.MurmurHash.hash3_x64_128 (seed 0), first word.
